@@ -1,12 +1,13 @@
 #!/usr/bin/env python3
 """Confirm a sub-agent's mutation in its scratch worktree and store it under /verif/seeded/<name>/.
 
-usage: seed.py <PROP> <k> [<worktree>]     (reads <worktree>/OUT/mut<k>.diff, demo<k>.rs, meta<k>.txt)
+usage: seed.py <PROP> <k> [<worktree> [<name>]]     (reads <worktree>/OUT/mut<k>.diff, demo<k>.rs, meta<k>.txt)
 Checks, in the worktree at the current /repo HEAD: the demo passes without the patch; with the patch the
 crate compiles, the existing suite passes and the demo fails."""
 import json, os, subprocess, sys, shutil
 prop, k = sys.argv[1], sys.argv[2]
 wt = sys.argv[3] if len(sys.argv) > 3 else '/tmp/mut/%s' % prop
+name = sys.argv[4] if len(sys.argv) > 4 else k   # number under /verif/seeded/<PROP>-<name>
 env = dict(os.environ, CARGO_NET_OFFLINE='true', CARGO_TARGET_DIR=os.path.join(wt, 'target'))
 def sh(cmd, **kw):
     return subprocess.run(cmd, cwd=wt, env=env, stdout=subprocess.PIPE, stderr=subprocess.STDOUT, text=True, **kw)
@@ -30,7 +31,7 @@ finally:
 ok = all(res.get(x) for x in ('demo_without_patch_passes', 'patch_applies_to_head', 'demo_with_patch_fails', 'existing_suite_passes_with_patch'))
 print(prop, k, 'CONFIRMED' if ok else 'REJECTED', json.dumps(res))
 if ok:
-    d = '/verif/seeded/%s-%s' % (prop, k)
+    d = '/verif/seeded/%s-%s' % (prop, name)
     os.makedirs(d, exist_ok=True)
     shutil.copy(os.path.join(out, 'mut%s.diff' % k), os.path.join(d, 'patch.diff'))
     shutil.copy(os.path.join(out, 'demo%s.rs' % k), os.path.join(d, 'demo.rs'))
